@@ -75,8 +75,21 @@ def scanP (dev : Nat → Nat → R Bytes) (first : Nat) : (k i : Nat) → Option
 
 def entriesP (dev : Nat → Nat → R Bytes) (table : Nat) : R (Nat × Nat) := do
   let n ← readRegP dev table 0 8
-  let first ← regAddr table 8
-  if n * 64 < 2 ^ 64 ∧ first + n * 64 < 2 ^ 64 then pure (n, first) else .err .invalidDevice
+  if table + 8 + n * 64 ≤ 2 ^ 64 then pure (n, table + 8) else .err .invalidDevice
+
+/-- the stepwise file read on a stateless device -/
+def readFileLoopP (dev : Nat → Nat → R Bytes) (addr size : Nat) : (fuel offset : Nat) → Bytes → R Bytes
+  | 0, _, buf => pure buf
+  | fuel + 1, offset, buf =>
+    if offset < size then do
+      let step := min XML_READ_STEP (size - offset)
+      let a ← (if addr + offset < 2 ^ 64 then .ok (addr + offset) else .err .invalidDevice : R Nat)
+      let bs ← dev a step
+      readFileLoopP dev addr size fuel (offset + step) (buf ++ bs)
+    else pure buf
+
+def readFileP (dev : Nat → Nat → R Bytes) (addr size : Nat) : R Bytes :=
+  readFileLoopP dev addr size (size / XML_READ_STEP + 1) 0 []
 
 def sha1HashP (dev : Nat → Nat → R Bytes) (ent : Nat) : R (Option Bytes) := do
   let a ← regAddr ent ENTRY_SHA1_HASH
@@ -93,7 +106,7 @@ def fetchSelected (o : Ops σ) (dev : Nat → Nat → R Bytes) (c : Candidate) :
   let addr ← readRegP dev c.entry ENTRY_REGISTER_ADDRESS 8
   let size ← readRegP dev c.entry ENTRY_FILE_SIZE 8
   let comp ← compressionType c.info
-  let buf ← dev addr size
+  let buf ← readFileP dev addr size
   verifyXmlP o.sha1 dev buf c.entry
   decodeFile o comp buf
 
@@ -134,10 +147,24 @@ theorem Always.scan (first : Nat) (k i : Nat) (cur : Option Candidate) :
 
 theorem Always.entries (table : Nat) : Always (entries o table) (entriesP dev table) := by
   unfold CamVerif.GenApiFetch.entries entriesP
-  refine Always.bind (Always.readReg h _ _ _) fun n => Always.bind (Always.lift _) fun first => ?_
-  by_cases hc : n * 64 < 2 ^ 64 ∧ first + n * 64 < 2 ^ 64
-  · simp only [hc, and_self, if_true]; exact Always.pure _
+  refine Always.bind (Always.readReg h _ _ _) fun n => ?_
+  by_cases hc : table + 8 + n * 64 ≤ 2 ^ 64
+  · simp only [hc, if_true]; exact Always.pure _
   · simp only [hc, if_false]; exact Always.fail _
+
+theorem Always.readFileLoop (addr size fuel offset : Nat) (buf : Bytes) :
+    Always (readFileLoop o addr size fuel offset buf) (readFileLoopP dev addr size fuel offset buf) := by
+  induction fuel generalizing offset buf with
+  | zero => exact Always.pure _
+  | succ fuel ih =>
+    unfold CamVerif.GenApiFetch.readFileLoop readFileLoopP
+    by_cases hlt : offset < size
+    · simp only [hlt, if_true]
+      exact Always.bind (Always.lift _) fun a => Always.bind (Always.devRead h a _) fun bs => ih _ _
+    · simp only [hlt, if_false]; exact Always.pure _
+
+theorem Always.readFile (addr size : Nat) : Always (readFile o addr size) (readFileP dev addr size) :=
+  Always.readFileLoop h addr size _ 0 []
 
 theorem Always.sha1Hash (ent : Nat) : Always (sha1Hash o ent) (sha1HashP dev ent) := by
   unfold CamVerif.GenApiFetch.sha1Hash sha1HashP
@@ -167,7 +194,7 @@ theorem Always.genapiFrom (table : Nat) : Always (genapiFrom o table) (fetchFrom
   | some c =>
     unfold fetchSelected
     exact Always.bind (Always.readReg h _ _ _) fun addr => Always.bind (Always.readReg h _ _ _) fun size =>
-      Always.bind (Always.lift _) fun comp => Always.bind (Always.devRead h addr size) fun buf =>
+      Always.bind (Always.lift _) fun comp => Always.bind (Always.readFile h addr size) fun buf =>
         Always.bind (Always.verifyXml h buf c.entry) fun _ => Always.lift _
 
 end
@@ -345,7 +372,7 @@ theorem fetchSelected_inv {o : Ops σ} {dev : Nat → Nat → R Bytes} {c : Cand
     (h : fetchSelected o dev c = .ok t) :
     ∃ addr size comp buf, readRegP dev c.entry ENTRY_REGISTER_ADDRESS 8 = .ok addr ∧
       readRegP dev c.entry ENTRY_FILE_SIZE 8 = .ok size ∧ compressionType c.info = .ok comp ∧
-      dev addr size = .ok buf ∧ verifyXmlP o.sha1 dev buf c.entry = .ok () ∧
+      readFileP dev addr size = .ok buf ∧ verifyXmlP o.sha1 dev buf c.entry = .ok () ∧
       decodeFile o comp buf = .ok t := by
   unfold fetchSelected at h
   obtain ⟨addr, h1, h⟩ := Res.bind_eq_ok h
@@ -434,14 +461,26 @@ theorem NeverPanics.scan (first k i : Nat) (cur : Option Candidate) : NeverPanic
     unfold CamVerif.GenApiFetch.scan
     exact NeverPanics.bind (NeverPanics.scanEntry h _ _) fun _ => ih _ _
 
+theorem NeverPanics.readFileLoop (addr size fuel offset : Nat) (buf : Bytes) :
+    NeverPanics (readFileLoop o addr size fuel offset buf) := by
+  induction fuel generalizing offset buf with
+  | zero => exact NeverPanics.pure _
+  | succ fuel ih =>
+    unfold CamVerif.GenApiFetch.readFileLoop
+    by_cases hlt : offset < size
+    · simp only [hlt, if_true]
+      refine NeverPanics.bind (NeverPanics.lift _ ?_) fun a =>
+        NeverPanics.bind (NeverPanics.devRead h a _) fun bs => ih _ _
+      split <;> simp
+    · simp only [hlt, if_false]; exact NeverPanics.pure _
+
 theorem NeverPanics.genapiFrom (table : Nat) : NeverPanics (genapiFrom o table) := by
   unfold CamVerif.GenApiFetch.genapiFrom
   refine NeverPanics.bind ?_ fun nf => ?_
   · unfold CamVerif.GenApiFetch.entries
-    refine NeverPanics.bind (NeverPanics.readReg h _ _ _) fun n =>
-      NeverPanics.bind (NeverPanics.lift _ (regAddr_ne_panic _ _)) fun first => ?_
-    by_cases hc : n * 64 < 2 ^ 64 ∧ first + n * 64 < 2 ^ 64
-    · simp only [hc, and_self, if_true]; exact NeverPanics.pure _
+    refine NeverPanics.bind (NeverPanics.readReg h _ _ _) fun n => ?_
+    by_cases hc : table + 8 + n * 64 ≤ 2 ^ 64
+    · simp only [hc, if_true]; exact NeverPanics.pure _
     · simp only [hc, if_false]; exact NeverPanics.fail _
   · obtain ⟨n, first⟩ := nf
     refine NeverPanics.bind (NeverPanics.scan h first n 0 none) fun newest => ?_
@@ -451,7 +490,7 @@ theorem NeverPanics.genapiFrom (table : Nat) : NeverPanics (genapiFrom o table) 
       refine NeverPanics.bind (NeverPanics.readReg h _ _ _) fun addr =>
         NeverPanics.bind (NeverPanics.readReg h _ _ _) fun size =>
         NeverPanics.bind (NeverPanics.lift _ (compressionType_ne_panic _)) fun comp =>
-        NeverPanics.bind (NeverPanics.devRead h addr size) fun buf => NeverPanics.bind ?_ fun _ =>
+        NeverPanics.bind (NeverPanics.readFileLoop h addr size _ 0 []) fun buf => NeverPanics.bind ?_ fun _ =>
         NeverPanics.lift _ (decodeFile_ne_panic o comp buf)
       unfold CamVerif.GenApiFetch.verifyXml
       refine NeverPanics.bind ?_ fun r => ?_
